@@ -51,10 +51,10 @@ Definition op_flags (f : hflag) (x : N) : bool * N * N * N := (is_set f x, set f
 (* the message the harness builds for an `m` line (harness/src/bin/c05.rs build_msg): through the builders of
    message_builder.rs in mode b where they apply, else field by field; then the parts no builder sets *)
 Definition op_build (mode_b : bool) (be : bool) (typ : mtype) (flags : N) (rs : option N)
-           (iface dest sender member path err : option (list N)) (body sg : list N) (nfds : N) : msg :=
+           (iface dest sender member path err : option (list N)) (body sg : list N) (nfds live : N) : msg :=
   let direct := {| m_typ := typ; m_flags := 0; m_be := be; m_reply_serial := None; m_interface := iface;
                    m_destination := dest; m_sender := None; m_member := member; m_object := path; m_error_name := None;
-                   m_body := []; m_sig := []; m_nfds := 0 |} in
+                   m_body := []; m_sig := []; m_nfds := 0; m_live := 0 |} in
   let base :=
     if mode_b then
       match typ, member with
@@ -69,4 +69,4 @@ Definition op_build (mode_b : bool) (be : bool) (typ : mtype) (flags : N) (rs : 
     else direct in
   {| m_typ := m_typ base; m_flags := flags; m_be := m_be base; m_reply_serial := rs; m_interface := m_interface base;
      m_destination := m_destination base; m_sender := sender; m_member := m_member base; m_object := m_object base;
-     m_error_name := err; m_body := body; m_sig := sg; m_nfds := nfds |}.
+     m_error_name := err; m_body := body; m_sig := sg; m_nfds := nfds; m_live := live |}.
